@@ -486,21 +486,21 @@ class MATD3(MultiAgentRLAlgorithm):
                 )
 
             actor.train()
-            if training:
-                if self.discrete_actions:
-                    min_action, max_action = 0, 1
-                else:
-                    min_action, max_action = (
-                        torch.as_tensor(self.min_action[idx], device=actions.device),
-                        torch.as_tensor(self.max_action[idx], device=actions.device),
-                    )
-
-                # Add noise to actions for exploration
-                actions = torch.clamp(
-                    actions + self.action_noise(idx),
-                    min_action,
-                    max_action,
+            if self.discrete_actions:
+                min_action, max_action = 0, 1
+            else:
+                min_action, max_action = (
+                    torch.as_tensor(self.min_action[idx], device=actions.device),
+                    torch.as_tensor(self.max_action[idx], device=actions.device),
                 )
+
+            # Add noise to actions for exploration
+            if training:
+                actions = actions + self.action_noise(idx)
+
+            # Actions stay inside the action space with and without exploration
+            if training or not self.discrete_actions:
+                actions = torch.clamp(actions, min_action, max_action)
 
             action_dict[agent_id] = actions.cpu().numpy()
 
